@@ -166,13 +166,6 @@ def run_history(rec: Rec, make, rnd: random.Random, cycles: int, case: dict, kla
                     mready = {p: bool(model.ready(p)) for p in ios}
                     allowed = {p: mready[p] and bool(model.accepts(p, args[p])) for p in ios}
                     groups = getattr(model, "conflict_groups", [])
-                    for g in groups:
-                        both = sorted(q for q in dones if q.partition("#")[0] in g)
-                        if not rec.check("conflicting_methods_never_run_together", len(both) <= 1, klass=klass, case=case,
-                                         detail={"group": sorted(g), "ran": both, "last_cycles": list(log)}):
-                            state["stop"] = True
-                    if state["stop"]:
-                        return
                     for k, p in enumerate(ios):
                         done, out, r = bool(vals[3 * k]), vals[3 * k + 1], bool(vals[3 * k + 2])
                         base = p.partition("#")[0]
